@@ -1,0 +1,80 @@
+//go:build verif
+
+/*
+ * Licensed to the Apache Software Foundation (ASF) under one or more
+ * contributor license agreements.  See the NOTICE file distributed with
+ * this work for additional information regarding copyright ownership.
+ * The ASF licenses this file to You under the Apache License, Version 2.0
+ * (the "License"); you may not use this file except in compliance with
+ * the License.  You may obtain a copy of the License at
+ *
+ *     http://www.apache.org/licenses/LICENSE-2.0
+ *
+ * Unless required by applicable law or agreed to in writing, software
+ * distributed under the License is distributed on an "AS IS" BASIS,
+ * WITHOUT WARRANTIES OR CONDITIONS OF ANY KIND, either express or implied.
+ * See the License for the specific language governing permissions and
+ * limitations under the License.
+ */
+
+package loadbalance
+
+// Verification contracts for property C19 (comment-only, tag verif): whatever the policy, the
+// session chosen is one of the sessions registered when the call was made and is open; nil is
+// returned only when every registered session is closed. The registry is a sync.Map whose keys are
+// the sessions; Range is a loop over a ghost enumeration of those keys, cut by "range n invariant";
+// visited(s) says that s has already been handed to the callback. A session's closed flag and
+// address are stable during one call (assumed contracts of getty.Session in pkg/remoting/getty).
+
+//@ func RandomLoadBalance
+//@   prop C19
+//@   requires sessions != nil
+//@   ensures live: result != nil ==> hadkey(syncmapp(sessions), result) && !ufb("session.closed", result)
+//@   ensures nil-only-if-none-open: result == nil ==> foralls(s, getty.Session, hadkey(syncmapp(sessions), s) ==> ufb("session.closed", s))
+//@   range 1 invariant members: forall(i, 0, len(keys), keys[i] != nil && hadkey(syncmapp(sessions), keys[i]) && !ufb("session.closed", keys[i]))
+//@   range 1 invariant closed-so-far: len(keys) == 0 ==> foralls(s, getty.Session, visited(s) ==> ufb("session.closed", s))
+
+//@ func XidLoadBalance
+//@   prop C19
+//@   requires sessions != nil
+//@   ensures live: result != nil ==> hadkey(syncmapp(sessions), result) && !ufb("session.closed", result)
+//@   ensures nil-only-if-none-open: result == nil ==> foralls(s, getty.Session, hadkey(syncmapp(sessions), s) ==> ufb("session.closed", s))
+//@   range 1 invariant none-yet: session == nil
+//@   range 1 invariant only-closed-removed: foralls(s, getty.Session, hadkey(syncmapp(sessions), s) && !haskey(syncmapp(sessions), s) ==> ufb("session.closed", s))
+
+//@ func LeastActiveLoadBalance
+//@   prop C19
+//@   requires sessions != nil
+//@   ensures live: result != nil ==> hadkey(syncmapp(sessions), result) && !ufb("session.closed", result)
+//@   ensures nil-only-if-none-open: result == nil ==> foralls(s, getty.Session, hadkey(syncmapp(sessions), s) ==> ufb("session.closed", s))
+//@   range 1 invariant count: leastCount == len(leastIndexes) && (leastCount == 0 ==> leastActive == -1)
+//@   range 1 invariant members: forall(i, 0, len(leastIndexes), leastIndexes[i] != nil && hadkey(syncmapp(sessions), leastIndexes[i]) && !ufb("session.closed", leastIndexes[i]))
+//@   range 1 invariant closed-so-far: leastCount == 0 ==> foralls(s, getty.Session, visited(s) ==> ufb("session.closed", s))
+
+//@ func Select
+//@   prop C19
+//@   requires sessions != nil
+//@   ensures live: result != nil ==> hadkey(syncmapp(sessions), result) && !ufb("session.closed", result)
+//@   ensures nil-only-if-none-open: result == nil ==> foralls(s, getty.Session, hadkey(syncmapp(sessions), s) ==> ufb("session.closed", s))
+
+// Consistent hashing: the ring is process-wide state built once; it may be stale with respect to
+// the registry passed in, so nothing is assumed about its content.
+//@ func (*Consistent).hash
+//@   trusted
+//@   ensures true
+//@ func newConsistenceInstance
+//@   trusted
+//@   modifies consistentInstance
+//@   ensures consistentInstance != nil && result == consistentInstance
+
+//@ func (*Consistent).pick
+//@   prop C19
+//@   requires c != nil && sessions != nil
+//@   ensures live: result != nil ==> hadkey(syncmapp(sessions), result) && !ufb("session.closed", result)
+//@   ensures nil-only-if-none-open: result == nil ==> foralls(s, getty.Session, hadkey(syncmapp(sessions), s) ==> ufb("session.closed", s))
+
+//@ func ConsistentHashLoadBalance
+//@   prop C19
+//@   requires sessions != nil
+//@   ensures live: result != nil ==> hadkey(syncmapp(sessions), result) && !ufb("session.closed", result)
+//@   ensures nil-only-if-none-open: result == nil ==> foralls(s, getty.Session, hadkey(syncmapp(sessions), s) ==> ufb("session.closed", s))
